@@ -31,7 +31,7 @@ fn run_case(case: &Case) -> Result<Vec<OpOut>, String> {
             let mut outs = vec![];
             for op in &case2.ops {
                 let fut = run_op(&engine, &sh, op);
-                match tokio::time::timeout(std::time::Duration::from_secs(20), fut).await {
+                match tokio::time::timeout(std::time::Duration::from_secs(3), fut).await {
                     Ok(o) => outs.push(o),
                     Err(_) => return Err(format!("hang at op {}", op.render())),
                 }
